@@ -522,10 +522,12 @@ fn check<T: W>(
         }
     }
     if let Some(want) = exp_closure_arg {
-        if calls.get() != 1 || seen.get() != Some(want) {
+        // (the closure may run more than once: fetch_update loops on a weak compare-exchange, which
+        // is allowed to fail spuriously -- Miri makes it do so -- but every call sees the field's value)
+        if calls.get() < 1 || seen.get() != Some(want) {
             cx.violation(sigbase("closure-arg"), || {
                 describe(&format!(
-                    "fetch_update closure called {} times, last argument {:x?}, expected exactly once with 0x{:x}",
+                    "fetch_update closure called {} times, last argument {:x?}, expected at least one call, each with 0x{:x}",
                     calls.get(),
                     seen.get(),
                     want
